@@ -155,7 +155,8 @@ def run_case(case, ch: Choices) -> RunResult:
     if p.get("corpus"):
         world = corpus.by_id(p["corpus"])
     else:
-        world = worlds.gen_world(ch, strategy="client", knobs=worlds.draw_knobs(ch, abstract=True, extensions=True),
+        world = worlds.gen_world(ch, strategy="client",
+                                 knobs=worlds.draw_knobs(ch, abstract=True, extensions=True, deprecated_inputs=ch.chance("w.deprecated_inputs", 1, 6)),
                                  custom_operations=False)
         if world is None:
             res.discarded = "generator-produced-nothing"
@@ -282,7 +283,8 @@ def run_case(case, ch: Choices) -> RunResult:
                             d = ["%s.%s: SDL %s vs introspection %s" % (c_, f_, json.dumps(ia.get(c_, {}).get(f_)), json.dumps(ic.get(c_, {}).get(f_)))
                                  for c_ in sorted(set(ia) | set(ic)) for f_ in sorted(set(ia.get(c_, {})) | set(ic.get(c_, {})))
                                  if ia.get(c_, {}).get(f_) != ic.get(c_, {}).get(f_)][:6]
-                            res.violations.append(Violation("introspection-changes-input-defaults", "input models differ between SDL and introspection: %s" % "; ".join(d)[:1500], {}))
+                            res.violations.append(Violation("introspection-changes-input-defaults", "input models differ between SDL and introspection: %s" % "; ".join(d)[:1500],
+                                                            {"schema_has_deprecated_inputs": bool((world.get("shape") or {}).get("deprecated_inputs"))}))
                             d = []
                     if d:
                         res.violations.append(Violation(
@@ -325,6 +327,8 @@ def run_case(case, ch: Choices) -> RunResult:
         res.digest = hashlib.sha256(repr((res.sig, sorted(desc_a.items()), [v.cls for v in res.violations])).encode()).hexdigest()
         if any("=" in d["sdl"] for d in world["defs"] if d["kind"] == "input"):
             res.bump("probe.world_with_input_defaults")
+        if (world.get("shape") or {}).get("deprecated_inputs"):
+            res.bump("probe.world_with_deprecated_input_fields_or_arguments")
         return res
     finally:
         genrun.rmtree(base)
